@@ -1431,6 +1431,8 @@ impl<'a> Gen<'a> {
                 let w = match self.r.below(8) {
                     0 => 0,
                     1 => -(self.r.range(1, 5) as i32),
+                    // (context for the bound inference of an unbounded variable: a few hundred to 10^5 values)
+                    2 if self.extreme => *self.r.pick(&[600, 5000, 70_000]),
                     _ => self.r.range(1, 7) as i32,
                 };
                 let b = a.saturating_add(w);
@@ -1477,6 +1479,8 @@ impl<'a> Gen<'a> {
                 let y = if self.r.chance(1, 2) { A::K(self.val()) } else { A::F(self.fval()) };
                 S::NewVar(x, y)
             }
+            // an "unbounded" integer variable: its bounds are inferred from the variables declared so far
+            _ if self.extreme && self.n > 0 && self.r.chance(1, 3) => S::Int(i32::MIN, i32::MAX),
             _ => {
                 let a = self.small();
                 S::Int(a, a + self.r.range(0, 3) as i32)
@@ -1892,6 +1896,11 @@ fn fixed_cases() -> Vec<Case> {
         Case { cfg: cfg(Some(150), None, None), steps: vec![S::Int(0, 3), S::Table { vs: vec![0], rows: vec![vec![A::K(1), A::K(2)]], route: 0 }], call: Call::Solve },
         // in range: reified linear helper with fewer coefficients than variables
         Case { cfg: cfg(Some(150), None, None), steps: vec![S::Ints(2, 0, 2), S::Bool, S::Lin { rel: 1, cs: vec![1], vs: vec![0, 1], k: 1, reif: Some(2), route: 0 }], call: Call::Solve },
+        // extreme, and correct on the pinned tree: an unbounded variable whose bounds are inferred from a
+        // context of large magnitude (the clamp branch of `infer_bounds` re-centres a 10^6 window)
+        Case { cfg: cfg(Some(2000), None, None), steps: vec![S::Int(1_500_000_000, 1_500_001_000), S::Int(i32::MIN, i32::MAX), S::Fluent { l: E::V(1), op: 0, r: E::V(0), wrap: 0, route: 0 }], call: Call::Solve },
+        Case { cfg: cfg(Some(2000), None, None), steps: vec![S::Int(-1_500_001_000, -1_500_000_000), S::Int(i32::MIN, i32::MAX), S::Fluent { l: E::V(1), op: 0, r: E::V(0), wrap: 0, route: 0 }], call: Call::Solve },
+        Case { cfg: cfg(Some(2000), None, None), steps: vec![S::Int(2_000_000_000, 2_000_070_000), S::Int(i32::MIN, i32::MAX)], call: Call::Validate },
         // extreme: the known overflow sites
         Case { cfg: cfg(Some(150), None, None), steps: vec![S::Int(2_000_000_000, 2_000_000_005), S::Int(2_000_000_000, 2_000_000_005), S::Bin { op: 0, x: A::V(0), y: A::V(1), route: 0 }], call: Call::Solve },
         Case { cfg: cfg(Some(150), None, None), steps: vec![S::IntSet(vec![i32::MAX])], call: Call::Solve },
